@@ -255,7 +255,7 @@ def verify_function(world, contract, discharge=True):
         rep.undecided = 'engine recursion limit'
     if contract.cut_before and not rep.cut_hit and rep.undecided is None:
         rep.undecided = 'cut marker %r not found in source' % contract.cut_before
-    for prefix in list(contract.abstract) + list(contract.ghost_in_body):
+    for prefix in list(contract.abstract) + list(contract.ghost_in_body) + list(contract.ghost_before):
         if prefix not in rep.used_abstract and rep.undecided is None:
             rep.undecided = 'abstraction anchor %r not found in source' % prefix
     if discharge and rep.undecided is None:
@@ -281,7 +281,14 @@ def discharge(ob, timeout_ms):
     s = None
     # portfolio: (1) pure e-matching (fast, can only prove), (2) default z3 incl. MBQI (proves or refutes)
     for cfg, budget in (({'smt.mbqi': False, 'smt.auto_config': False}, min(timeout_ms, 5000)),
+                        ('cvc5', min(timeout_ms, 15000)),
                         ({}, timeout_ms)):
+        if cfg == 'cvc5':
+            if s is not None and cvc5_check(s, budget) == 'unsat':
+                r = z3.unsat
+                ob.solver = 'cvc5-1.0.3'
+                break
+            continue
         s = z3.Solver()
         s.set('timeout', budget)
         for k_, v_ in cfg.items():
@@ -303,13 +310,8 @@ def discharge(ob, timeout_ms):
         ob.result = 'refuted'
         ob.model = s.model()
     else:
-        # second opinion
-        r2 = cvc5_check(s, timeout_ms)
-        if r2 == 'unsat':
-            ob.result, ob.solver = 'discharged', 'cvc5'
-        else:
-            ob.result = 'unknown'
-            ob.reason = s.reason_unknown()
+        ob.result = 'unknown'
+        ob.reason = s.reason_unknown()
     ob.ms = int((time.time() - t0) * 1000)
     ob.smt2_head = None
 
